@@ -154,6 +154,22 @@ fn job(j: &Job, tier: Tier) -> Vec<(String, String, Value)> {
         out.push(("roundtrip:mismatch-on-own-file".into(), format!("the file just written by the same command is not accepted (exit {:?} vs {:?}): {line}", r2.status, r1.status), json!({"stats": text})));
         return out;
     }
+    // the same round trip with the verifying run writing statistics again (the very options of the first run + -i)
+    {
+        let mut rd2 = w.clone();
+        rd2[w.len() - 3] = scratch.join(&format!("second.{ext}")).display().to_string();
+        rd2.extend(["-i".to_string(), statp.display().to_string()]);
+        let r3 = run_tool(&scratch, &j.input, &j.mode, &rd2);
+        if r3.crashed() || mismatch_reported(&r3) || r3.status != r1.status {
+            out.push(("roundtrip:mismatch-on-own-file:while-writing-again".into(), format!("verification that also writes statistics: exit {:?} vs {:?}", r3.status, r1.status), json!({"stats": text})));
+            return out;
+        }
+        let second = std::fs::read_to_string(scratch.join(&format!("second.{ext}"))).unwrap_or_default();
+        if second != text {
+            out.push(("roundtrip:second-file-differs".into(), "the statistics file written by the verifying run differs from the first one".into(), json!({"stats": text, "second": second})));
+            return out;
+        }
+    }
     // drift: every leaf
     let doc: Value = if j.toml { match toml::from_str::<Value>(&text) { Ok(v) => v, Err(e) => { out.push(("roundtrip:unreadable".into(), format!("{e}"), json!({}))); return out; } } } else { serde_json::from_str(&text).unwrap() };
     let mut ls = Vec::new();
@@ -180,6 +196,10 @@ fn job(j: &Job, tier: Tier) -> Vec<(String, String, Value)> {
         std::fs::write(&pp, &ptext).unwrap();
         let mut a = common.clone();
         a.extend(["-i".to_string(), pp.display().to_string()]);
+        if li % 2 == 1 {
+            // every second verification also writes statistics, like the run that produced the file
+            a.extend(["-S".to_string(), scratch.join(&format!("again{li}.{ext}")).display().to_string(), "-D".to_string(), ext.to_string()]);
+        }
         let r = run_tool(&scratch, &j.input, &j.mode, &a);
         let leaf = path.join(".");
         if r.crashed() {
